@@ -160,7 +160,7 @@ def _const(draw, idx, aliases):
         d['value'] = {'k': 'int', 'lit': draw(st.integers(0, 2 ** 63 - 1)), 'usuffix': uns and draw(st.booleans()),
                       'wrap': 'G_GUINT64_CONSTANT' if uns else 'G_GINT64_CONSTANT'}
     elif kind == 'str':
-        d['value'] = {'k': 'str', 's': draw(st.text(alphabet=st.sampled_from(list('ab <>&"\'\\\n\té中%')), max_size=12))}
+        d['value'] = {'k': 'str', 's': draw(st.text(alphabet=st.sampled_from(list('ab <>&"\'\\\n\t\ré中%')), max_size=12))}
     elif kind == 'double':
         d['value'] = {'k': 'double', 'f': draw(st.sampled_from([0.0, 1.5, 3.141592653589793, 1e10, 0.000001, 123456.789]))}
     elif kind == 'bool':
